@@ -164,7 +164,12 @@ type prun struct {
 }
 
 func (r *prun) violate(rule, kind, cond, detail string) {
-	r.viol = append(r.viol, &k.Violation{Rule: rule, Props: []string{"C18"}, Kind: kind, Cond: cond, Detail: detail, Step: r.stepNo})
+	props := []string{"C18"}
+	if rule == "panic" {
+		// a transport that crashes on a stored address or on a history of connections is C13's concern too
+		props = []string{"C18", "C13"}
+	}
+	r.viol = append(r.viol, &k.Violation{Rule: rule, Props: props, Kind: kind, Cond: cond, Detail: detail, Step: r.stepNo})
 	if rule == "panic" {
 		r.logf("VIOLATION %s %s", rule, cond) // stacks carry addresses
 	} else {
